@@ -733,7 +733,18 @@ func c07DoGen(h *H, specs []c14ColSpec) (*c03Case, []c07Tgt) {
 		}
 	}
 	// the LAST packet: the one that is cut
-	switch k := h.R.Intn(10); {
+	switch k := h.R.Intn(12); {
+	case k >= 10:
+		// a server exception with nested causes: cut anywhere - also between two complete links - it is not the server's
+		// exception but a stream that ended too early
+		p := &c03Pkt{kind: "exception"}
+		depth := 2 + h.R.Intn(3)
+		for i := 0; i < depth; i++ {
+			e := c03Exc(h)
+			e.Nested = i+1 < depth
+			p.chain = append(p.chain, e)
+		}
+		cs.packets = append(cs.packets, p)
 	case k < 6:
 		cs.packets = append(cs.packets, framed(c03Block(h, "data", schema, names, rowsOf())))
 	case k == 6:
